@@ -394,6 +394,12 @@ async fn add_adf_problem(
 
     let username_clone = username.clone();
     let problem_name_clone = problem_name.clone();
+    let app_state_end = app_state.clone();
+    let running_info_end = RunningInfo {
+        username: username.clone(),
+        adf_name: problem_name.clone(),
+        task: Task::Parse,
+    };
 
     let adf_fut = timeout(
         COMPUTE_TIME,
@@ -445,6 +451,13 @@ async fn add_adf_problem(
     );
 
     spawn(adf_fut.then(move |adf_res| async move {
+        // the task has ended, also if it panicked or timed out before it could deregister itself
+        app_state_end
+            .currently_running
+            .lock()
+            .unwrap()
+            .remove(&running_info_end);
+
         let (adf, ac_and_graph): (SimplifiedAdfOpt, AcsAndGraphsOpt) = match adf_res {
             Err(err) => (
                 SimplifiedAdfOpt::Error(err.to_string()),
@@ -561,6 +574,9 @@ async fn solve_adf_problem(
             .body("The ADF problem has already been solved with this strategy. You can just get the solution from the problem data directly.");
     }
 
+    let app_state_end = app_state.clone();
+    let running_info_end = running_info.clone();
+
     let acs_and_graphs_fut = timeout(
         COMPUTE_TIME,
         spawn_blocking(move || {
@@ -608,6 +624,13 @@ async fn solve_adf_problem(
     );
 
     spawn(acs_and_graphs_fut.then(move |acs_and_graphs_res| async move {
+        // the task has ended, also if it panicked or timed out before it could deregister itself
+        app_state_end
+            .currently_running
+            .lock()
+            .unwrap()
+            .remove(&running_info_end);
+
         let acs_and_graphs_enum: AcsAndGraphsOpt = match acs_and_graphs_res {
             Err(err) => AcsAndGraphsOpt::Error(err.to_string()),
             Ok(Err(err)) => AcsAndGraphsOpt::Error(err.to_string()),
